@@ -261,6 +261,7 @@ func (fr *Frame) multi(st *State, e ast.Expr, n int) []Val {
 		m := fr.expr(st, r.X)
 		k := fr.expr(st, r.Index)
 		if m.Ty != nil && isMap(m.Ty) {
+			fr.guardedMapAccess(st, r, m, "read")
 			ok := x.bind(Val{T: x.mapHas(st, m, k), S: "Bool", Ty: types.Typ[types.Bool]}, "ok")
 			return []Val{x.bind(x.indexVal(st, m, k, true), "mv"), ok}
 		}
@@ -402,6 +403,7 @@ func (fr *Frame) assign(st *State, l ast.Expr, v Val) {
 		if b.Ty != nil && isMap(b.Ty) {
 			k := fr.expr(st, n.Index)
 			fr.safety(st, "nil-map-write", fr.src(n.X), n, "(not (= "+b.T+" 0))")
+			fr.guardedMapAccess(st, n, b, "write")
 			x.mapStore(st, b, k, v)
 			return
 		}
